@@ -97,6 +97,14 @@ CHECKS = {
             "WhenDisposed not closing within 20 s while nothing runs is the violation 'never disposes'. DisposeForce only on idle machines "
             "(documented to panic otherwise). Handler-less machines ignoring parent cancel are recorded as an observation, per the statement's condition.",
             "property-based testing (rapid) with harness-owned dispose points (verif gates) and a goroutine-leak oracle", "DESIGN.md §5 C13"),
+    "C12": ("exploration",
+            "Generated concurrent programs (2..16 goroutines drawing from a catalog of ~140 calls that covers the machine's public method set by "
+            "category, on a machine whose handlers also mutate; plus NetworkMachine readers vs a Lock+UpdateClock feeder) run in -race child "
+            "processes with random yields at the verif schedule points; every race report is normalised to a site signature and anything not "
+            "listed as a known finding fails the check; a program that does not finish in 30 s is reported as a deadlock with its stacks.",
+            "The oracle is the Go race detector: it only sees races that happen in the run. Methods documented as unsafe/setup-only are excluded and "
+            "listed in the evidence; methods not in the catalog are listed too (measured by reflection).",
+            "property-based generation of concurrent programs (rapid) with the Go race detector as the oracle", "DESIGN.md §5 C12"),
 }
 
 NOT_YET = "check not built yet in this session (planned, see DESIGN.md §9)"
